@@ -134,6 +134,12 @@ func besselPreds(v, x float64, logv bool) []predEv {
 		// reflection: z := u + float64(n % 2)
 		n := iroundH(av)
 		cmp(ik, "n%2", float64(n%2), 0, 1, n%2 != 0)
+		if logv {
+			t := sp.SinPi(av - float64(n) + float64(n%2))
+			if t != 0 {
+				cmp(ik, "t<0.0", t, 0, 0, t < 0)
+			}
+		}
 	}
 	cmp(ik, "x<=2", x, 2, 0, x <= 2)
 	lim := (4*av*av + 10) / (8 * x)
